@@ -193,6 +193,15 @@ class Ownership:
                                     returns.add(rr[1])
             elif isinstance(st, ast.If):
                 self._calls(st.test, amap, selfname, attr_alias, ci, mi, sinks, depth)
+                # a test that is statically decided (`x.dtype is float64` is always False, its negation always True) takes
+                # one arm only - exactly like the conditional-expression form of the same idiom
+                truth = static_truth(st.test, mi)
+                if truth is True:
+                    self.walk(st.body, amap, selfname, attr_alias, ci, mi, sinks, depth, returns, attr_out)
+                    continue
+                if truth is False:
+                    self.walk(st.orelse, amap, selfname, attr_alias, ci, mi, sinks, depth, returns, attr_out)
+                    continue
                 a1 = {k: set(v) for k, v in amap.items()}
                 a2 = {k: set(v) for k, v in amap.items()}
                 self.walk(st.body, a1, selfname, attr_alias, ci, mi, sinks, depth, returns, attr_out)
@@ -302,6 +311,20 @@ def static_false(test, mi):
             q = mi.imports.get(r.id) if mi is not None else None
             return (q or "").startswith("numpy.") and r.id in NUMPY_SCALAR_TYPES
     return False
+
+
+def static_truth(test, mi):
+    """True / False when the test is decided for every input, else None."""
+    if static_false(test, mi):
+        return False
+    if isinstance(test, ast.UnaryOp) and isinstance(test.op, ast.Not):
+        t = static_truth(test.operand, mi)
+        return None if t is None else not t
+    if isinstance(test, ast.Compare) and len(test.ops) == 1 and isinstance(test.ops[0], ast.IsNot):
+        flipped = ast.Compare(left=test.left, ops=[ast.Is()], comparators=test.comparators)
+        if static_false(flipped, mi):
+            return True
+    return None
 
 
 SCALAR_ANN = {"float", "int", "bool", "str", "callable", "Callable"}
